@@ -68,13 +68,15 @@ ASSUMPTIONS = ['numpy ndarray.tolist()/tobytes() and Quantity.to_value are trust
 
 TOL = Fraction(1, 2 ** 50)
 UNIT = 'Jy'
+# Quantity images: a physical unit, and a scaled dimensionless one (into which astropy lets a bare number be assigned -- converted)
+QUNITS = {'quantity': 'Jy', 'quantity_pct': 'percent'}
 
 # ------------------------------------------------------------------ scope --
 _Q = dict(
     boxes=[(1, 1), (2, 3), (3, 2), (8, 8), (0, 2), (2, 0)],
     images=[(5, 6), (1, 1), (3, 4), (6, 2)],
     weights=['ones', 'checker', 'antichecker', 'frac', 'tiny', 'frac_list', 'wide', 'checker@i8', 'ones@bool', 'frac@f4', 'frac@moved'],
-    dtypes=['int64', 'float64', 'quantity', 'uint16'],
+    dtypes=['int64', 'float64', 'quantity', 'uint16', 'quantity_pct'],
     layouts=['C', 'view'],
     fills=['0', '7', 'nan', 'inf'],
     copies=[False, True],
@@ -255,7 +257,7 @@ def _image(dt, layout, iny, inx):
         return im
     import astropy.units as u
     npdt = {'int64': np.int64, 'int32': np.int32, 'uint16': np.uint16, 'float64': np.float64,
-            'float32': np.float32, 'quantity': np.float64}[dt]
+            'float32': np.float32, 'quantity': np.float64, 'quantity_pct': np.float64}[dt]
     vals = [[_pixel(dt, y, x) for x in range(inx)] for y in range(iny)]
     plain = np.array([[float(v) for v in row] for row in vals], dtype=np.float64).reshape(iny, inx).astype(npdt)
     im = Img()
@@ -273,8 +275,8 @@ def _image(dt, layout, iny, inx):
         view = raw[1:1 + iny, 2:2 + 2 * inx:2]
     else:
         raise ValueError(layout)
-    if dt == 'quantity':
-        q = u.Quantity(raw, u.Unit(UNIT), copy=False, subok=False)
+    if dt in QUNITS:
+        q = u.Quantity(raw, u.Unit(QUNITS[dt]), copy=False, subok=False)
         if raw.size and not np.shares_memory(q.view(np.ndarray), raw):      # harness self-check
             raise RuntimeError('Quantity does not wrap the tracked buffer')
         if layout == 'view':
@@ -377,6 +379,7 @@ def _unpack(r, want_unit):
     if not isinstance(r, np.ndarray):
         return False, f'returned {type(r).__name__}, not an array'
     if want_unit:
+        UNIT = want_unit if isinstance(want_unit, str) else 'Jy'
         if not isinstance(r, u.Quantity):
             return 'unit', f'input was a Quantity in {UNIT} but the result is a plain {type(r).__name__} (unit lost)'
         try:
@@ -500,6 +503,10 @@ def check_to_image(res, ctx, dtype=None):
         _raised(res, ctx, case, 'to_image', r)
         return
     _after(res, ctx, case, 'to_image')
+    if isinstance(r, np.ndarray) and r.size and np.shares_memory(r, np.asarray(ctx.mask.data)):
+        _V(res, 'to_image_wrong', case, f'to_image returned an array that shares memory with the mask weights (the image is the caller\'s to edit) '
+                                        f'-- {_describe(ctx)}', 'a new array', 'shares memory with mask.data')
+        r = np.array(r, copy=True)
     if not g.overlap:
         res.outcome(('to_image', g.kind, 'None' if r is None else type(r).__name__))
         if r is not None:
@@ -570,7 +577,7 @@ def check_cutout(res, ctx, dt, layout, fname, copy):
     if r is None:
         _V(res, 'none_with_overlap', case, f'cutout returned None but pixels are shared -- {_describe(ctx)}')
         return
-    okk, vals = _unpack(r, dt == 'quantity')
+    okk, vals = _unpack(r, QUNITS.get(dt, False))
     if okk is not True:
         _V(res, 'unit_lost' if okk == 'unit' else 'cutout_wrong', case,
            f'cutout({dt}, fill={fname}, copy={copy}) {vals} -- {_describe(ctx)}')
@@ -616,7 +623,7 @@ def check_multiply(res, ctx, dt, layout, fname):
     if r is None:
         _V(res, 'none_with_overlap', case, f'multiply returned None but pixels are shared -- {_describe(ctx)}')
         return
-    okk, vals = _unpack(r, dt == 'quantity')
+    okk, vals = _unpack(r, QUNITS.get(dt, False))
     if okk is not True:
         _V(res, 'unit_lost' if okk == 'unit' else 'multiply_wrong', case,
            f'multiply({dt}, fill={fname}) {vals} -- {_describe(ctx)}')
@@ -687,7 +694,7 @@ def check_values(res, ctx, dt, layout, mname):
         _V(res, 'values_wrong', case, f'get_values returned a {r.ndim}-d array -- {_describe(ctx)}')
         return
     if model:
-        okk, vals = _unpack(r, dt == 'quantity')
+        okk, vals = _unpack(r, QUNITS.get(dt, False))
         if okk is not True:
             _V(res, 'unit_lost' if okk == 'unit' else 'values_wrong', case,
                f'get_values({dt}, mask={mname}) {vals} -- {_describe(ctx)}')
